@@ -46,6 +46,7 @@ def compile_all(R, tmp, sp, label):
     """compile libs then roots; returns True when every module compiled"""
     order = [(n, sp.layouts[n]) for n, _, _ in sp.libs] + [(n, sp.layouts[n]) for n, _, _, _ in sp.roots]
     for name, (text, mode) in order:
+        os.makedirs(os.path.dirname(os.path.join(tmp, name + ".nsl")), exist_ok=True)
         with open(os.path.join(tmp, name + ".nsl"), "w") as f:
             f.write(text)
         rc, out = runner.nslc(tmp, name + ".nsl", name + ".nslir")
